@@ -25,7 +25,17 @@ partial def hasNot : IR → Bool
   | .object vs ix => vs.any (fun p => hasNot p.2.2) || (match ix with | some (k, _, v) => hasNot k || hasNot v | none => false)
   | _ => false
 
+/-- does the request use a built-in whose tag the port of the engine does not carry (Map, Set, typed arrays)? Such
+requests are not tied (`untied`); the reference of the second channel still judges the real validator -/
+partial def mentionsUnported : Sexp → Bool
+  | .list (.atom "bi" :: .str n :: rest) =>
+    ["Map", "Set", "Uint8Array", "Uint8ClampedArray", "Uint16Array", "Uint32Array", "Int8Array", "Int16Array", "Int32Array",
+      "Float32Array", "Float64Array", "BigInt64Array", "BigUint64Array"].contains n || rest.any mentionsUnported
+  | .list xs => xs.any mentionsUnported
+  | _ => false
+
 def semOp (progS : Sexp) (valsS : List Sexp) : Sexp :=
+  if mentionsUnported progS then .atom "untied" else
   match decSemProg progS, valsS.mapM decVal with
   | some (decls, name, e), some vals =>
     match Sem.evalSemExpr decls e with
